@@ -44,7 +44,7 @@ PROPS = {
                 rule='feasible run in which an observation was postponed past its planned start, two started in one step, or a tier move happened',
                 nontrivial=lambda o: o['probes'].get('observation_postponed') or o['probes'].get('two_starts_same_step')
                 or o['probes'].get('tier_move')),
-    'C06': dict(jobs=[('sim', 'general', .45), ('sim', 'delay', .15), ('sim', 'units', .15), ('taskdrv', '-', .25)], quick_n=4000,
+    'C06': dict(jobs=[('sim', 'general', .4), ('sim', 'delay', .13), ('sim', 'units', .12), ('sim', 'adv', .1), ('taskdrv', '-', .25)], quick_n=4000,
                 rule='run with a zero-runtime or >=3-step task and at least one comparable pair of executions',
                 nontrivial=lambda o: (o['probes'].get('zero_runtime_task') or o['probes'].get('long_task')) and o['probes'].get('mono_pairs')),
     'C07': dict(jobs=[('sim', 'buffer', .6), ('buffer_ops', '-', .4)], quick_n=4000,
@@ -89,7 +89,7 @@ PROPS = {
                 rule='sequence/run with at least one completed or refused tier move',
                 nontrivial=lambda o: o['probes'].get('move_h2c') or o['probes'].get('move_c2h') or o['probes'].get('tier_move')
                 or o['faults'].get('F8:move_no_room_refused')),
-    'C19': dict(jobs=[('sim', 'general', .5), ('cluster_ops', '-', .3), ('buffer_ops', '-', .2)], quick_n=4000,
+    'C19': dict(jobs=[('sim', 'general', .47), ('cluster_ops', '-', .3), ('buffer_ops', '-', .2), ('pause_sample', 'general', .03)], quick_n=4000,
                 rule='run/sequence in which the cluster was busy at some point (query evaluated in busy and idle states)',
                 nontrivial=lambda o: o['nevents'] > 10),
 }
@@ -216,7 +216,7 @@ def match_known(known, sig, case=None):
 
 
 # -------------------------------------------------------------------- shrink
-def shrink(pool, case, sig, budget_runs=250, budget_s=90):
+def shrink(pool, case, sig, budget_runs=250, budget_s=90, hint=None):
     from . import cases
     t0 = time.time()
     runs = 0
@@ -224,7 +224,7 @@ def shrink(pool, case, sig, budget_runs=250, budget_s=90):
     improved = True
     while improved and runs < budget_runs and time.time() - t0 < budget_s:
         improved = False
-        cands = list(cases.shrink_candidates(cur))
+        cands = list(cases.shrink_candidates(cur, hint))
         # evaluate in small parallel batches, accept the first (in order) that reproduces
         i = 0
         while i < len(cands) and runs < budget_runs and time.time() - t0 < budget_s:
@@ -431,7 +431,7 @@ def _run_property(pid, tier, seed, budget_s, workers, scale, out):
                 xs.sort(key=lambda x: len(json.dumps(x['case'])))
                 case = xs[0]['case']
                 try:
-                    small, runs = shrink(pool, case, sig)
+                    small, runs = shrink(pool, case, sig, hint=xs[0]['v'])
                 except Exception as e:
                     small, runs = case, 0
                 # the minimised case must still reproduce (fresh process below); fall back to the original
